@@ -6,8 +6,9 @@ import CfrVerif.Props.C07
 import CfrVerif.Proofs.Fuel
 import CfrVerif.Proofs.NoPanic
 import CfrVerif.Proofs.WellFormed
-import CfrVerif.Proofs.Locks
+import CfrVerif.Proofs.LocksCheck
 --! audit CfrVerif/Proofs/Locks.lean
+--! audit CfrVerif/Proofs/LocksCheck.lean
 /-!
 # C05 — every solve returns a well-formed strategy profile and never panics
 
